@@ -104,7 +104,10 @@ def register_operation_after_classical_gate(monitor, witness):
     after the whole tket circuit: a Measure(override_bits=True) or a Bits
     preparation that comes AFTER a classical gate in the diagram acts on the
     registers as they were before it (wrong order of effects; with gates that
-    change the number of bits the offsets also go out of range). """
+    change the number of bits the offsets also go out of range).  A
+    Swap(bit, bit) is deferred in the same way as soon as the post-processing
+    holds a box (e.g. after a Measure that inserted its bit left of another
+    one), and then counts as a classical gate here. """
     return monitor in _EXPORT\
         and has(witness, "bit_register_operation_after_a_classical_gate")
 
@@ -184,11 +187,14 @@ def circuit_facts(d):
     full = d.init_and_discard()
     bits, n_total = [], 0
     facts, seen_bra, seen_classical = set(), False, False
+    deferred = False     # the post-processing already holds a box
     for left, box, right in full.layers:
         name = type(box).__name__
         off = left.count(c.bit)
         if name == "Measure" and not box.override_bits:
             for j in range(box.n_qubits):
+                if off + j < len(bits):
+                    deferred = True      # add_bit(offset=) swaps the new wire in
                 bits.insert(off + j, n_total)
                 n_total += 1
             if seen_bra:
@@ -205,6 +211,8 @@ def circuit_facts(d):
                 facts.add("bit_register_operation_after_a_classical_gate")
             if seen_bra:
                 facts.add("post_selection_before_a_bit_is_created")
+            if off < len(bits):
+                deferred = True
             start = n_total if not bits else 0 if off == 0 else (
                 bits[off - 1] + 1 if off - 1 < len(bits) else n_total)
             if any(r >= start for r in bits):
@@ -219,8 +227,13 @@ def circuit_facts(d):
         elif name == "Swap" and box.dom == c.bit @ c.bit:
             if seen_bra:
                 facts.add("bit_swap_after_a_post_selection")
+            if deferred:
+                # once the post-processing holds a box, to_tk appends bit swaps
+                # to it instead of renaming registers: the swap is deferred
+                # exactly like a classical gate
+                seen_classical = True
         elif isinstance(box, g.ClassicalGate):
-            seen_classical = True
+            seen_classical = deferred = True
     return facts
 
 
